@@ -17,16 +17,19 @@ theorem c14_content (g : Eventgroup) (ttl : Nat) :
 
 /-- a StopSubscribe is the same entry with TTL 0 -/
 theorem c14_stop_is_ttl0 (s : Stack) (d : Addr) (egs : List Eventgroup) :
-    s.runCb (.sendStopSubscribe d egs) = s.sendSd (egs.map (fun g => g.createSubscribeEntry 0 0)) (some d) := by
+    s.runCb (.sendStopSubscribe d egs) =
+      ({ s with subLog := s.subLog ++ [(d, 0, egs)] } : Stack).sendSd (egs.map (fun g => g.createSubscribeEntry 0 0)) (some d) := by
   simp [runCb, sendSubscribe]
 theorem c14_start_uses_ttl (s : Stack) (d : Addr) (egs : List Eventgroup) :
-    s.runCb (.sendStartSubscribe d egs) = s.sendSd (egs.map (fun g => g.createSubscribeEntry s.tm.subscribeTtl 0)) (some d) := by
+    s.runCb (.sendStartSubscribe d egs) =
+      ({ s with subLog := s.subLog ++ [(d, s.tm.subscribeTtl, egs)] } : Stack).sendSd
+        (egs.map (fun g => g.createSubscribeEntry s.tm.subscribeTtl 0)) (some d) := by
   simp [runCb, sendSubscribe]
 
 /-- every subscription message goes only to the server it was requested for -/
 theorem c14_only_to_server (s : Stack) (ttl : Nat) (d : Addr) (egs : List Eventgroup) (hne : egs ≠ []) :
     ∃ o, (s.sendSubscribe ttl d egs).outs = s.outs ++ [(s.loop.now, o)] ∧ ((∃ b, o = .send (some d) b) ∨ (∃ e, o = .raised e)) := by
-  obtain ⟨o, h1, _, _, h4⟩ := sendSd_cases s (egs.map (fun g => g.createSubscribeEntry ttl 0)) (some d) (by simpa using hne)
+  obtain ⟨o, h1, _, _, h4⟩ := sendSd_cases ({ s with subLog := s.subLog ++ [(d, ttl, egs)] } : Stack) (egs.map (fun g => g.createSubscribeEntry ttl 0)) (some d) (by simpa using hne)
   exact ⟨o, h1, h4⟩
 
 /-- requesting while running: recorded, and one Subscribe for it is queued for the next loop turn -/
@@ -126,7 +129,7 @@ theorem c14_connection_lost_silent (s : Stack) (ht : s.subTask = none) :
   by_cases h : s.alive = true <;> simp [h, ht]
 
 /-- no refresh interval: the subscribe task sends one round and ends; with an interval it sleeps exactly that long -/
-theorem c14_no_refresh_one_round (s : Stack) (tid : Nat) (t : TaskSt) (hpc : t.pc = .created) (hc : t.cancelled = false)
+theorem c14_no_refresh_one_round (s : Stack) (tid : Tid) (t : TaskSt) (hpc : t.pc = .created) (hc : t.cancelled = false)
     (hr : s.tm.subscribeRefresh = none) :
     ∃ s' : Stack, s.stepSubscribe tid t = s'.finish tid t := by
   have key : ∀ (gs : List (Addr × List Eventgroup)) (st : Stack), st.tm.subscribeRefresh = none →
